@@ -10,6 +10,19 @@ Proj(s) == [k \in 1..Len(s) |-> Ins(s[k].name, s[k].targets, s[k].cls)]
 Norm(x) == IF x.name = "PAULI_CHANNEL_1" /\ x.cls[2] = "none" THEN [x EXCEPT !.cls = <<"idle", "none", 0, 0>>] ELSE x
 NormSeq(s) == [k \in 1..Len(s) |-> Norm(s[k])]
 
+\* two dressed sequences agree up to the order of the idle channels within one insertion point: every maximal run of idle
+\* channels is compared as a set (plus its length), everything else in order
+IsNoise(x) == x.name = "PAULI_CHANNEL_1"
+Canon(s, f(_)) ==
+  LET F[k \in 0..Len(s)] ==
+        IF k = 0 THEN <<>>
+        ELSE LET x == s[k]  P == F[k-1] IN
+             IF IsNoise(x) /\ k > 1 /\ IsNoise(s[k-1])
+             THEN [P EXCEPT ![Len(P)] = [noise |-> TRUE, items |-> @.items \cup {f(x)}, n |-> @.n + 1]]
+             ELSE Append(P, [noise |-> IsNoise(x), items |-> {f(x)}, n |-> 1])
+  IN F[Len(s)]
+SameNoise(a, b, f(_)) == Canon(a, f) = Canon(b, f)
+
 RowFails(r) ==
   LET inp == Proj(r.input)  out == Proj(r.output)  want == Dress(inp, r.settings)
       strip(s) == SelectSeq(s, LAMBDA x : x.name # "PAULI_CHANNEL_1")
@@ -17,8 +30,10 @@ RowFails(r) ==
   IN W(names(strip(out)) = names(SplitM(inp)) /\ r.without_noise_equal, "C14.strip")                              \* only noise is inserted
      \cup W(\A k \in 1..Len(r.output) : r.output[k].range_ok, "C14.range")
      \cup W(SelectSeq(out, LAMBDA x : x.name = "M") = SelectSeq(want, LAMBDA x : x.name = "M"), "C14.measurement")   \* assignment error selected per qubit
-     \cup W(names(out) = names(want), "C14.placement")                                                                \* where the idle channels sit
-     \cup (IF names(out) = names(want) THEN W(NormSeq(out) = NormSeq(want), "C14.selection") ELSE {})                \* which (duration class, T1, T2) they follow
+     \* where the idle channels sit, and which (duration class, T1, T2) they follow.  Idle channels inserted at the same place
+     \* (between the same two instructions of the input) act on different qubits and commute: their relative order is left open
+     \cup W(SameNoise(out, want, LAMBDA x : <<x.name, x.targets>>), "C14.placement")
+     \cup (IF SameNoise(out, want, LAMBDA x : <<x.name, x.targets>>) THEN W(SameNoise(out, want, Norm), "C14.selection") ELSE {})
 
 Init == i = 1 /\ fails = <<>>
 Step == /\ i <= Len(Rows)
